@@ -48,6 +48,7 @@ type Env struct {
 	curStep    int
 	KeepTrace  bool
 	maxViol    int
+	PlanProp   string // property of the plan being executed
 }
 
 // NewEnv creates the environment. Must be called inside the synctest bubble.
